@@ -2306,7 +2306,7 @@ def convert_mean_to_depthwise_conv(op, arch, nng):
         h = ifm_shape[1] if reduce_axis[1] else 1
         w = ifm_shape[2] if reduce_axis[2] else 1
 
-        num_elements_in_axis = h * w
+        num_elements_in_axis = int(h) * int(w)
 
         # If one convolution is enough, but height is greater than max kernel height
         # reshape from HxW to 1x(HxW)
